@@ -640,7 +640,7 @@ impl Job {
                         p.reader.sizes = vec![1];
                     }
                 }
-                p.wrapper = if mode == "mem" { Wrapper::Sim } else { Wrapper::Slice };
+                p.wrapper = if mode == "mem" || sub % 5 != 0 { Wrapper::Sim } else { Wrapper::Slice };
             }
             JobKind::Cuts { base, cuts, variants } => {
                 p.base_desc = base.desc.clone();
@@ -711,7 +711,7 @@ impl Job {
                     // the sweep would render the huge tilemap several times: ask for one frame
                     p.workload = Workload::Explicit(vec![crate::observe::Op::FrameImage(0)]);
                 }
-                p.wrapper = if mode == "mem" { Wrapper::Sim } else { Wrapper::Slice };
+                p.wrapper = if mode == "mem" || sub % 5 != 0 { Wrapper::Sim } else { Wrapper::Slice };
             }
             JobKind::Random { .. } => self.random_plan(ctx, &mut p, rseed),
         }
@@ -734,11 +734,15 @@ impl Job {
                     p.edits = edits;
                 }
                 p.base = base.bytes;
-                if r.chance(1, 5) {
-                    p.wrapper = Wrapper::Sim;
-                    p.reader = gen_reader_plan(&mut r, p.base.len() as u64, &[], false);
-                } else {
-                    p.wrapper = Wrapper::Slice;
+                // SimReader (even with full reads) counts calls, so a loader that keeps polling a
+                // reader at end of input is caught at once rather than by the wall-clock watchdog
+                match r.below(5) {
+                    0 => {
+                        p.wrapper = Wrapper::Sim;
+                        p.reader = gen_reader_plan(&mut r, p.base.len() as u64, &[], false);
+                    }
+                    1 => p.wrapper = Wrapper::Slice,
+                    _ => p.wrapper = Wrapper::Sim,
                 }
             }
             "mem" => {
